@@ -17,7 +17,7 @@ EXPLAINED = {
 class C02(Property):
     id = "C02"
     lean_module = "RosuModel.Props.C02All"   # imports Props/C02Slider.lean, Props/C02Timing.lean, Props/C02Codec.lean (which import Props/C02.lean), Props/C02File.lean, Props/C02Decoded.lean, Props/C02CodecIeee.lean (all in namespace Rosu.C02) and Props/IeeeFalse.lean (namespace Rosu.IeeeFalse)
-    theorem_modules = ['RosuModel.Props.C02All', 'RosuModel.Props.C02CodecIeee', ('RosuModel.Props.IeeeFalse', 'Rosu.IeeeFalse')]   # files whose top-level theorems are all audited
+    theorem_modules = ['RosuModel.Props.C02All', 'RosuModel.Props.C02CodecIeee', ('RosuModel.Props.IeeeFalse', 'Rosu.IeeeFalse'), 'RosuModel.Props.C02DecodedIeee']   # files whose top-level theorems are all audited
     namespace = "Rosu.C02"
     design_ref = "5.2"
     required_theorems = ["trim_cons_space", "kvSplit_kvLine", "kv_line_roundtrip", "int_display_parse", "int_display_clean",
